@@ -276,11 +276,15 @@ func c15Model(init string) porcupine.Model {
 // runC15Cut: a lone Set is cut short at every file-system operation (and, for writes, at every byte).
 func runC15Cut(x *mc.X) {
 	vlen := mc.Pick(x, "value-len", []int{1, 40, 4097})
-	prev := x.Choose("previous-value", 2) == 1
+	prevKind := mc.Pick(x, "previous-value", []string{"none", "50 bytes", "same length as the new value"})
+	prev := prevKind != "none"
 	enc := x.Choose("encrypted", 2) == 1
 	how := mc.Pick(x, "cut", []string{"die", "ENOSPC", "EIO"})
 	val := bytes.Repeat([]byte("N"), vlen)
 	old := bytes.Repeat([]byte("o"), 50)
+	if prevKind == "same length as the new value" {
+		old = bytes.Repeat([]byte("o"), vlen)
+	}
 
 	dir, err := os.MkdirTemp(os.Getenv("VERIF_SCRATCH"), "c15-")
 	if err != nil {
@@ -324,7 +328,7 @@ func runC15Cut(x *mc.X) {
 	oi := x.Choose("at-operation", len(ops))
 	x.Trace[len(x.Trace)-1].Desc = ops[oi].Op
 	short := 0
-	if ops[oi].Op == "File.Write" && ops[oi].N > 0 {
+	if (ops[oi].Op == "File.Write" || ops[oi].Op == "File.WriteAt") && ops[oi].N > 0 {
 		// every byte count for short values; a grid plus both ends for the 4 KiB value (thorough: every byte)
 		var ks []int
 		if ops[oi].N <= 128 || x.Tier() == "thorough" {
